@@ -187,20 +187,20 @@ VReveal(ev) ==
 
 \* hide, reveal directly, reveal after encode/decode (C11)
 VHideReveal(ev) ==
-  (IF ~Has(ev, "h") \/ Has(ev.h, "t") THEN <<"outcome-panic">>       \* hiding or the direct reveal panicked
-   ELSE
-   LET sp == Hide(MD5H, ev.v, ev.secret, ev.rv, ev.lp, ev.ap)
-       inDomain == ~IsHidden(ev.v) /\ EncodableAvp(ev.v)
-       \* the hidden AVP itself must fit the 10-bit length to travel: otherwise the encoder refuses it (C07's
-       \* business) and only the direct path applies
-       travels == sp.v.k = "Hidden" /\ 6 + Len(sp.v.f[2]) <= MaxAvpLength
-   IN IF sp.panic THEN <<"harness-hide-panic">>
+  LET sp == Hide(MD5H, ev.v, ev.secret, ev.rv, ev.lp, ev.ap)
+      \* C11's domain as quantified: non-hidden, encodable, 2 + |payload| + |lp| <= 1008 (so that the hidden AVP
+      \* still fits 1023 octets and can travel); outside it only the hidden value itself is compared (C12)
+      inDomain == ~IsHidden(ev.v) /\ EncodableAvp(ev.v) /\ 2 + ValueLength(ev.v) + Len(ev.lp) <= 1008
+      travels == sp.v.k = "Hidden" /\ 6 + Len(sp.v.f[2]) <= MaxAvpLength
+      hPanicked == ~Has(ev, "h") \/ Has(ev.h, "t")
+  IN (IF hPanicked THEN (IF sp.panic THEN << >> ELSE IF inDomain \/ IsHidden(ev.v) THEN <<"outcome-panic">> ELSE <<"unexpected-panic">>)
+      ELSE IF sp.panic THEN <<"oversize-accepted">>
       ELSE T(~AvpEq(sp.v, ev.h), "hide-value")
            \o T(IsHidden(ev.v) /\ ~AvpEq(ev.v, ev.h), "hide-of-hidden")
            \o (IF ~inDomain THEN << >>
                ELSE T(~(ev.r1.t = "ok" /\ AvpEq(ev.r1.v, ev.v)), "reveal-direct")
                     \o T(~ev.eq1, "native-eq")
-                    \o (IF ~travels THEN T(~Has(ev, "wire_panic"), "oversize-accepted")
+                    \o (IF ~travels THEN << >>
                         ELSE IF Has(ev, "wire_panic") THEN <<"wire-panic">>
                         ELSE T(ev.enc # AvpRecord(sp.v), "hide-wire")
                              \o T(HideWireBad(ev.enc, sp.v), "hide-wire-form")
